@@ -162,6 +162,19 @@ def run_scenario(sc):
     mesh = get_mesh(info, pars, dim=kernel.dim)
     kmesh = mesh[2:2 + P.npars]
     ev["weights"] = [fvec(w) for _, _, w in kmesh]
+    ev["values"] = [fvec(d) for _, d, _ in kmesh]
+    # declared hard limits, from the definition's own table rows (a numbered member of a vector parameter has
+    # the limits of the vector's row); only dispersible parameters are subject to them
+    lims = []
+    for p, (_, d, _) in zip(P.call_parameters[2:2 + P.npars], kmesh):
+        lim = (-np.inf, np.inf)
+        if p.polydisperse:
+            lim = p.limits
+            for k in P.kernel_parameters:
+                if k.length > 1 and p.name.startswith(k.id) and p.name[len(k.id):].isdigit():
+                    lim = k.limits
+        lims.append([fstr(lim[0]), fstr(lim[1])])
+    ev["limits"] = lims
     ev["lens"] = [len(w) for _, _, w in kmesh]
     res = {"refused": False, "raised": False, "error": "", "Iq": [], "F1": [], "F2": [],
            "reff": "0.0", "vshell": "0.0", "ratio": "0.0"}
